@@ -868,10 +868,20 @@ class NotIterable:
         return f"<not iterable {self.st.sid}>"
 
 
+class Unopenable(NotIterable):
+    """An async iterable whose iterator cannot be obtained: ``__aiter__`` itself fails (a connection refused, a wrong
+    type found while opening) - unlike a non-iterable value, whose refusal surfaces only at the first item."""
+
+    def __aiter__(self):
+        raise TypeError(f"cannot open {self.st.sid}")
+
+
 def make_source(st: SrcState, flavour: str) -> Any:
     """Build the object handed to the library for ``st`` in the given flavour."""
     if flavour == "not_iterable":
         return NotIterable(st)
+    if flavour == "unopenable":
+        return Unopenable(st)
     if flavour == "sync_mapping":
         return SyncMapping(st)
     if flavour == "tuple_sub":
